@@ -111,6 +111,9 @@ def run(ctx):
     if not ctx.replay:
         binding_demo(ctx, events)
 
+    if not ctx.replay:
+        ec.gaspayer_step(ctx)
+
     started = [e for e in events if e["e"] == "Tx" and e.get("started")]
     ctx.cov["evaluations"] = ntx + summary["packerRuns"]
     ctx.cov["distinct_nontrivial"] = summary["distinct"]
